@@ -61,13 +61,13 @@ impl MatrixId {
             let first = percent_decode_str(first_raw).decode_utf8()?;
             let second = percent_decode_str(second_raw).decode_utf8()?;
 
-            match first.as_bytes()[0] {
-                b'!' | b'#' if second.as_bytes()[0] == b'$' => {
+            match first.as_bytes().first() {
+                Some(b'!' | b'#') if second.as_bytes().first() == Some(&b'$') => {
                     let room_id = <&RoomOrAliasId>::try_from(first.as_ref())?;
                     let event_id = <&EventId>::try_from(second.as_ref())?;
                     Ok((room_id, event_id).into())
                 }
-                b'$' if matches!(second.as_bytes()[0], b'!' | b'#') => {
+                Some(b'$') if matches!(second.as_bytes().first(), Some(b'!' | b'#')) => {
                     let room_id = <&RoomOrAliasId>::try_from(second.as_ref())?;
                     let event_id = <&EventId>::try_from(first.as_ref())?;
                     Ok((room_id, event_id).into())
@@ -77,11 +77,11 @@ impl MatrixId {
         } else {
             let id = percent_decode_str(s).decode_utf8()?;
 
-            match id.as_bytes()[0] {
-                b'@' => Ok(<&UserId>::try_from(id.as_ref())?.into()),
-                b'!' => Ok(<&RoomId>::try_from(id.as_ref())?.into()),
-                b'#' => Ok(<&RoomAliasId>::try_from(id.as_ref())?.into()),
-                b'$' => Err(MatrixIdError::MissingRoom.into()),
+            match id.as_bytes().first() {
+                Some(b'@') => Ok(<&UserId>::try_from(id.as_ref())?.into()),
+                Some(b'!') => Ok(<&RoomId>::try_from(id.as_ref())?.into()),
+                Some(b'#') => Ok(<&RoomAliasId>::try_from(id.as_ref())?.into()),
+                Some(b'$') => Err(MatrixIdError::MissingRoom.into()),
                 _ => Err(MatrixIdError::UnknownIdentifier.into()),
             }
         }
